@@ -10,6 +10,7 @@ from dalimc.spec import ref_codec as R
 
 ID = "C12"
 OPTIMISED_STRIDE = {"quick": 10, "thorough": 20}      # every k-th shard once more in an interpreter started with -O
+TRACE_STRIDE = {"quick": 10, "thorough": 20}      # every k-th shard once more with logging enabled down to TRACE
 LEVEL = "exploration"
 ENGINE = "E1"
 TECHNIQUE = "exhaustive enumeration of the event frame space and of map contents through the real decoder vs a reference event decoder"
